@@ -156,11 +156,12 @@ class Network:
         :param services: the list of services to register.
         """
         with self.graph_lock:
+            services = set(services)  # The given iterable may only be good for one pass (e.g., a generator)
             key_material = peer.public_key.key_to_bin()
             if key_material not in self.services_per_peer:
                 self.services_per_peer[key_material] = set(services)
             else:
-                self.services_per_peer[key_material] |= set(services)
+                self.services_per_peer[key_material] |= services
             for service in services:
                 service_cache = self.reverse_service_lookup.get(service, None)
                 if service_cache is not None:
